@@ -96,6 +96,9 @@ func installHooks() {
 			if hookYield.Load() {
 				runtime.Gosched()
 			}
+			if f := hookMid.Load(); f != nil {
+				(*f)()
+			}
 		})
 		verifhook.Set("ws.before_replay", func() {
 			replayGateMu.Lock()
